@@ -69,6 +69,11 @@ struct FitOut {
     dec: Vec<f64>,
     lab: Vec<bool>,
     pr: Vec<f32>,
+    /// weighted_sum of every training sample, the regression prediction of every training sample (else empty),
+    /// the predicted label of every training sample (classification without calibration / one-class, else empty)
+    tws: Vec<f64>,
+    tout: Vec<f64>,
+    tlab: Vec<bool>,
     platt_fallback: bool,
     /// Rust-side differential failures (single-sample predict vs batch, Platt coefficients)
     diff: Vec<String>,
@@ -131,7 +136,8 @@ fn run_fit(c: &Cfg) -> Result<FitOut, String> {
                             }
                             Err(_) => diff.push("Platt calibration fails on the training decision values although the fit succeeded".into()),
                         }
-                        return Ok(FitOut { nsupport: model.nsupport(), ws, dec: vec![], lab, pr, m, platt_fallback: false, diff });
+                        let tws: Vec<f64> = ds.records().outer_iter().map(|r| model.weighted_sum(&r)).collect();
+                        return Ok(FitOut { nsupport: model.nsupport(), ws, dec: vec![], lab, pr, tws, tout: vec![], tlab: vec![], m, platt_fallback: false, diff });
                     }
                     Err(linfa_svm::SvmError::Platt(_)) => fallback = true,
                     Err(e) => return Err(format!("ERR: {}", e)),
@@ -150,7 +156,9 @@ fn run_fit(c: &Cfg) -> Result<FitOut, String> {
             for (k, r) in q.outer_iter().enumerate() {
                 if model.predict(r.to_owned()) != lab[k] { diff.push(format!("single-sample label of query {} differs from the batch prediction", k)); }
             }
-            Ok(FitOut { m: mirror(&model), nsupport: model.nsupport(), ws, dec: vec![], lab, pr: vec![], platt_fallback: fallback, diff })
+            let tws: Vec<f64> = ds.records().outer_iter().map(|r| model.weighted_sum(&r)).collect();
+            let tlab: Vec<bool> = model.predict(ds.records()).to_vec();
+            Ok(FitOut { m: mirror(&model), nsupport: model.nsupport(), ws, dec: vec![], lab, pr: vec![], tws, tout: vec![], tlab, platt_fallback: fallback, diff })
         }
         Kind::OneClass => {
             let ds = Dataset::from(x);
@@ -158,7 +166,9 @@ fn run_fit(c: &Cfg) -> Result<FitOut, String> {
             let model = p.fit(&ds).map_err(|e| format!("ERR: {}", e))?;
             let ws: Vec<f64> = q.outer_iter().map(|r| model.weighted_sum(&r)).collect();
             let lab: Vec<bool> = model.predict(&q).to_vec();
-            Ok(FitOut { m: mirror(&model), nsupport: model.nsupport(), ws, dec: vec![], lab, pr: vec![], platt_fallback: false, diff: vec![] })
+            let tws: Vec<f64> = ds.records().outer_iter().map(|r| model.weighted_sum(&r)).collect();
+            let tlab: Vec<bool> = model.predict(ds.records()).to_vec();
+            Ok(FitOut { m: mirror(&model), nsupport: model.nsupport(), ws, dec: vec![], lab, pr: vec![], tws, tout: vec![], tlab, platt_fallback: false, diff: vec![] })
         }
         Kind::EpsSvr | Kind::NuSvr => {
             let ds = Dataset::new(x, Array1::from(c.yr.clone()));
@@ -180,7 +190,9 @@ fn run_fit(c: &Cfg) -> Result<FitOut, String> {
                     diff.push(format!("single-sample prediction of query {} differs from the batch prediction", k));
                 }
             }
-            Ok(FitOut { m: mirror(&model), nsupport: model.nsupport(), ws, dec, lab: vec![], pr: vec![], platt_fallback: false, diff })
+            let tws: Vec<f64> = ds.records().outer_iter().map(|r| model.weighted_sum(&r)).collect();
+            let tout: Vec<f64> = model.predict(ds.records()).to_vec();
+            Ok(FitOut { m: mirror(&model), nsupport: model.nsupport(), ws, dec, lab: vec![], pr: vec![], tws, tout, tlab: vec![], platt_fallback: false, diff })
         }
     }
 }
@@ -237,6 +249,31 @@ fn kapply(k: Ker, arg: f64) -> f64 {
         Ker::Gauss(_) => arg.exp(),
         Ker::Poly(_, d) => arg.powf(d),
     }
+}
+
+/// floating-point Cholesky factor of K + (delta/2) I, entries rounded to a common binary grid: only a hint for the
+/// exact certificate psd_cert of coq/C13/PsdCert.v (any matrix may be sent; a poor one just fails the check)
+fn cholesky_hint(k: &[Vec<f64>], delta: f64) -> Vec<Vec<f64>> {
+    let n = k.len();
+    let mut l = vec![vec![0.0f64; n]; n];
+    for i in 0..n {
+        for j in 0..=i {
+            let mut s = k[i][j] + if i == j { delta / 2.0 } else { 0.0 };
+            for t in 0..j { s -= l[i][t] * l[j][t]; }
+            if i == j {
+                l[i][j] = if s > 0.0 { s.sqrt() } else { 0.0 };
+            } else {
+                l[i][j] = if l[j][j] > 0.0 { s / l[j][j] } else { 0.0 };
+            }
+        }
+    }
+    let lmax = l.iter().flatten().fold(0.0f64, |m, a| m.max(a.abs()));
+    if !(lmax > 0.0 && lmax.is_finite()) { return vec![vec![0.0; n]; n]; }
+    // grid 2^(e - 62) with 2^(e-1) <= max|L| < 2^e: entries become integers below 2^62 after scaling
+    let e = lmax.log2().floor() as i32 + 1;
+    let g = 2f64.powi(e - 62);
+    for row in l.iter_mut() { for v in row.iter_mut() { *v = (*v / g).round() * g; } }
+    l
 }
 
 // ---- generators ----
@@ -399,6 +436,8 @@ fn emit(out: &mut Out, id: u64, c: &Cfg, fam: &str, stream: &str, thorough: bool
 
     let res = timed_fit(&c, if thorough { 120 } else { 30 });
     let replay_ok = n <= (if stream == "shrink" { 130 } else if thorough { 60 } else { 36 });
+    // sizes for which the positive semi-definiteness certificate is evaluated (must agree with C13/Corr.v psd_limit)
+    let psd_limit = 64usize;
     let nt = if c.kind == Kind::OneClass { (c.par1 * n as f64) as u64 } else { 0 };
     let head = format!(
         "{{| c_id := {}; c_kind := {}; c_kernel := {}; c_kp1 := {}; c_kp2 := {}; c_X := {}; c_yb := {}; c_yr := {}; c_par1 := {}; c_par2 := {}; c_eps := {}; c_shrink := {}; c_nt := {}; ",
@@ -425,7 +464,7 @@ fn emit(out: &mut Out, id: u64, c: &Cfg, fam: &str, stream: &str, thorough: bool
             out.rust_fail(id, 512, &tagrefs, &format!("fit did not produce a model: {}", e), &desc);
             if is_panic && replay_ok {
                 // the model of the solver must panic as well
-                let coq = format!("{}c_replay := true; {}c_panic := true; c_alpha := []; c_rho := 0%float; c_r := None; c_obj := 0%float; c_iter := {}; c_w := []; c_sv := []; c_nsupport := 0%N; {}c_ws := []; c_dec := []; c_lab := []; c_pr := []; c_tolk := 0%float; c_toleq := 0%float; c_told := 0%float; c_tolpsd := 0%float |}}",
+                let coq = format!("{}c_replay := true; {}c_panic := true; c_alpha := []; c_rho := 0%float; c_r := None; c_obj := 0%float; c_iter := {}; c_w := []; c_sv := []; c_nsupport := 0%N; {}c_ws := []; c_dec := []; c_lab := []; c_pr := []; c_tolk := 0%float; c_toleq := 0%float; c_told := 0%float; c_tolpsd := 0%float; c_tws := []; c_tout := []; c_tlab := []; c_L := [] |}}",
                     head, kpart, cn(40 * n as u64 + 2000), qpart);
                 out.case(id, &coq, &tagrefs, &desc, key);
             } else {
@@ -451,6 +490,7 @@ fn emit(out: &mut Out, id: u64, c: &Cfg, fam: &str, stream: &str, thorough: bool
             let tolk = 2.0 * c.eps + scale * 2f64.powi(-36);
             let toleq = (amax + asum) * 2f64.powi(-40) * (1.0 + (f.m.iterations as f64).sqrt()) + 1e-300;
             let qkmax = qk.iter().flatten().fold(0.0f64, |m, a| m.max(a.abs()));
+            let qkmax = qkmax.max(kmax);   // the decision values of the training samples are judged as well
             let told = (1.0 + asum * qkmax + f.m.rho.abs()) * 2f64.powi(-36) + (n as f64) * 100.0 * f64::EPSILON * qkmax;
             // rounding of the kernel values perturbs the spectrum by at most n * max|K| * a few ulps
             let tolpsd = (n as f64) * kmax * 2f64.powi(-45);
@@ -485,14 +525,20 @@ fn emit(out: &mut Out, id: u64, c: &Cfg, fam: &str, stream: &str, thorough: bool
                 }
             }
             let pr64: Vec<f64> = f.pr.iter().map(|p| *p as f64).collect();
+            let lpart = if n <= psd_limit && kmat.iter().flatten().all(|v| v.is_finite()) {
+                out.bump("psd_certificates");
+                cmats(&cholesky_hint(&kmat, tolpsd))
+            } else { "[]".to_string() };
             let desc = format!("{}, \"output\": {{\"rho\": \"{:e}\", \"r\": \"{:?}\", \"obj\": \"{:e}\", \"iterations\": {}, \"nsupport\": {}, \"alpha_head\": \"{:?}\"}}}}",
                 &desc[..desc.len() - 1], f.m.rho, f.m.r, f.m.obj, f.m.iterations, f.nsupport, &f.m.alpha[..f.m.alpha.len().min(6)]);
             let coq = format!(
-                "{}c_replay := {}; {}c_panic := false; c_alpha := {}; c_rho := {}; c_r := {}; c_obj := {}; c_iter := {}; c_w := {}; c_sv := {}; c_nsupport := {}; {}c_ws := {}; c_dec := {}; c_lab := {}; c_pr := {}; c_tolk := {}; c_toleq := {}; c_told := {}; c_tolpsd := {} |}}",
+                "{}c_replay := {}; {}c_panic := false; c_alpha := {}; c_rho := {}; c_r := {}; c_obj := {}; c_iter := {}; c_w := {}; c_sv := {}; c_nsupport := {}; {}c_ws := {}; c_dec := {}; c_lab := {}; c_pr := {}; c_tolk := {}; c_toleq := {}; c_told := {}; c_tolpsd := {}; c_tws := {}; c_tout := {}; c_tlab := {}; c_L := {} |}}",
                 head, cbool(replay), kpart, cvec64(&f.m.alpha), sf64(f.m.rho),
                 match f.m.r { Some(r) => format!("Some {}", sf64(r)), None => "None".into() },
                 sf64(f.m.obj), cn(f.m.iterations as u64), cvecs(&w), cmats(&sv), cn(f.nsupport as u64), qpart,
-                cvec64(&f.ws), cvecs(&f.dec), cvecb(&f.lab), cvecs(&pr64), sf64(tolk), sf64(toleq), sf64(told), sf64(tolpsd));
+                cvec64(&f.ws), cvecs(&f.dec), cvecb(&f.lab), cvecs(&pr64), sf64(tolk), sf64(toleq), sf64(told), sf64(tolpsd),
+                cvecs(&f.tws), cvecs(&f.tout), cvecb(&f.tlab),
+                lpart);
             // non-trivial: the solver made at least one step and at least one coefficient is non-zero
             let nontrivial = f.m.iterations > 0 && f.m.alpha.iter().any(|a| *a != 0.0);
             out.case(id, &coq, &tagrefs, &desc, if nontrivial { key } else { None });
